@@ -30,6 +30,14 @@ theorem zip_self_map {α γ : Type} (l : List α) (g : α → γ) :
   have := zip_map_self l id g
   simpa using this
 
+theorem filterMap_congr_mem {α β : Type} (l : List α) (f g : α → Option β)
+    (h : ∀ x ∈ l, f x = g x) : l.filterMap f = l.filterMap g := by
+  induction l with
+  | nil => rfl
+  | cons a l ih =>
+    rw [List.filterMap_cons, List.filterMap_cons, h a List.mem_cons_self,
+      ih (fun x hx => h x (List.mem_cons_of_mem _ hx))]
+
 theorem mem_nonzeroFrom (mask : List Bool) (k m : Nat) :
     m ∈ nonzeroFrom k mask ↔ k ≤ m ∧ mask[m - k]? = some true := by
   induction mask generalizing k with
